@@ -63,7 +63,20 @@ pub fn mixed_history(rng: &mut Rng, c: u32, l: u32, n: usize, with_clear: bool) 
                 };
                 ops.push(Op::Api(Call::Resize(a, b)));
             }
-            88..=90 => {
+            88 => {
+                // a mode number the emulator does not implement, set or reset
+                let n = if rng.bool() { *rng.pick(&gen::OTHER_MODES) } else { rng.range(0, 130) };
+                ops.push(Op::Feed(format!("\x1b[{}{}{}", if rng.below(4) != 0 { "?" } else { "" }, n, if rng.below(3) != 0 { 'h' } else { 'l' })));
+            }
+            89 => {
+                // an excursion into 132-column mode with the cursor taken far to the right
+                ops.push(Op::Feed(format!("\x1b[?3h\x1b[{};{}H", rng.range(1, cl), if cc >= 132 { 132 } else { rng.range(cc, 132) })));
+                if rng.bool() {
+                    ops.push(Op::Feed(gen::text_run(rng, 6)));
+                }
+                ops.push(Op::Feed("\x1b[?3l".into()));
+            }
+            90 => {
                 ops.push(Op::Feed(if rng.bool() { "\x1b[?3h".into() } else { "\x1b[?3l".into() }));
                 // the width is now unknown to the generator: fine, parameters are only hints
                 if rng.bool() {
